@@ -121,6 +121,11 @@ def run_variant(spec_path, kind):
     finally:
         shutil.rmtree(d, ignore_errors=True)
         shutil.rmtree(facts_dir_for(d), ignore_errors=True)
+        shutil.rmtree(facts_dir_for(d) + ".tmp", ignore_errors=True)
+        try:
+            os.unlink(facts_dir_for(d) + ".lock")
+        except OSError:
+            pass
 
 
 def baseline(props):
